@@ -20,6 +20,9 @@ class Bundle:
         self.samples = []
         self.canaries = []        # results of canary runs (thorough)
         self.explanation = ""
+        self.xitems = []          # executor cross-check items (tpv.xcheck)
+        self.xcheck = {}
+        self.const_values = {}    # Symbol -> float: true value of module constants kept symbolic in the proofs (for the cross-check)
 
     def add(self, ob):
         self.obligations.append(ob)
